@@ -295,6 +295,19 @@ def eval_case(kind, data):
                     ops.add(f"prefix-mismatch:{got}")
                     if got == "molecule":
                         viol(res, "C15|accepted|prefix-mismatch", f"{variant!r}: prefix descriptor {wrong} differs from the left terminal, generates {det}", {"text": variant})
+            # an object whose left terminal is EMPTY starts from its own end group: a prefix handed to it (its open descriptor
+            # differs from the empty terminal) is misuse, not something to drop silently
+            m0 = re.match(r"^(\{\[\][^{}]*\}\|[^|]*\|)(.*)$", b)
+            if m0:
+                for pre in ("OCC[$]", "N[>]", "CC[<|0|]"):
+                    variant = pre + b
+                    res["states"] += 1
+                    res["traces"] += 1
+                    res["transitions"] += 2
+                    got, det = attempt(variant)
+                    ops.add(f"prefix-before-empty-terminal:{got}")
+                    if got == "molecule":
+                        viol(res, "C15|accepted|prefix-before-empty-left-terminal", f"{variant!r}: the prefix {pre!r} stands in front of an object whose left terminal is empty, yet {det} is generated", {"text": variant})
             # negative weight: not generable
             for mm in list(R.DESC_RE.finditer(b))[:6]:
                 core = mm.group(0)
